@@ -116,7 +116,7 @@ def h15d(c, K=3):
     may arrive before the replace response): at quiescence every bet has exactly one local order and every view lists each order once"""
     from .c11 import h11a
     from .c06 import _Only
-    h11a(_Only(c, ("exactly-one-local-order", "orders-once", "lookup-identity", "view-once", "live-list", "bet-id-lookup", "view-entry", "live-list-entry", "no-exception")), K=K)
+    h11a(_Only(c, ("exactly-one-local-order", "orders-once", "lookup-identity", "view-once", "live-list-at-most-once", "incomplete-order-in-live-list", "bet-id-lookup", "view-entry", "live-list-entry", "no-exception")), K=K)
 
 
 HARNESSES = [
